@@ -80,7 +80,7 @@ DecideQuick(z) ==
               {<<Run("once")>>, <<Run("check")>>, <<Run("missing")>>, <<Run("once"), Move("r1", "v1", "B"), Run("once")>>,
                <<Run("once"), Move("r1", "v1", ""), Run("once")>>, <<Run("missing"), Move("r1", "v1", "X"), Run("once")>>})
 DecideFull(z) ==
-  DecideSpace({Img1("r1", "v1"), E0}, {"A", "B", "X", "H", ""}, {"", "A", "X", "Xa", "H"},
+  DecideSpace({Img1("r1", "v1"), E0}, {"A", "B", "X", ""}, {"", "A", "X", "Xa"},
               {"", "amd64", "s390x"}, {<<>>, <<"ociindex", "dockerman">>},
               {"none", "tagtpl", "const", "fullref", "othreg"}, Switches,
               {<<Run(a)>> : a \in Modes3} \cup
